@@ -200,6 +200,7 @@ Json gen_l1(sim::Rng& rng, int tier)
     p["max_req"] = static_cast<long>(max_size);
     p["messages"] = gen_msgs(rng, true, max_size, static_cast<int>(rng.range(2, tier ? 6 : 4)), 5);
     p["gap_us"] = static_cast<int>(800 + rng.below(2000));
+    p["decoy"] = rng.chance(0.4);
     gen_sched(rng, p, 4000, false);
     return p;
 }
@@ -277,7 +278,21 @@ void run_l1(const Json& plan)
         std::string seen_a;
         for (size_t q = reqs_before; q < w.requests.size(); ++q) seen_a += w.requests[q].snap + "\n";
         int sa = ia >= 0 ? ka->reader.done[static_cast<size_t>(ia)].status : 0;
-        // the same message alone on a new connection
+        // the same message alone on a new connection - in part of the runs on a descriptor number that has just been given up
+        // by a connection that was dropped in the middle of a message (a fresh connection starts from nothing, whatever the
+        // previous owner of its number was doing)
+        if (plan.flag("decoy")) {
+            auto decoy = mk(500 + fresh_id);
+            const std::function<bool()> dup = [&] { return decoy->st.connected || decoy->st.refused; };
+            scen::wait_for(dup, 1000000000LL, "driver.connect");
+            static const std::string kPartial = "POST /echo/decoy?k=v HTTP/1.1\r\nHost: s\r\nCookie: a=b\r\nContent-Length: 20\r\n\r\nabc";
+            if (decoy->sock) decoy->sock->send(kPartial.data(), kPartial.size());
+            sim::sleep_ns(400 * 1000);
+            if (decoy->sock) decoy->sock->close();
+            decoy->st.closed_by_us = true;
+            sim::sleep_ns(400 * 1000);
+            r.probe("l1-fresh-connection-on-a-number-dropped-in-mid-message");
+        }
         auto fresh = mk(fresh_id++);
         const std::function<bool()> up = [&] { return fresh->st.connected || fresh->st.refused; };
         scen::wait_for(up, 1000000000LL, "driver.connect");
